@@ -42,6 +42,11 @@ def on_hang(sim, exc):
     msg = str(exc)
     if "cpu spin" in msg and sim.spin_info:
         who, frames = sim.spin_info
+        if any(f.split(":")[-1] == "safe_string" for f in frames[:3]):
+            # util.safe_string builds its result by repeated bytes concatenation: quadratic, so a DEBUG message whose
+            # lying length field is zero-padded by Message.get_bytes to several 100 KiB keeps the thread busy for
+            # longer than the watchdog allows.  Slow, finite, and no failure surfaces: nothing for C38 to judge.
+            return core.Inconclusive("slow-safe_string-on-padded-field")
         pf = [f for f in frames if not f.startswith(("threading.py", "core.py", "shims.py", "message.py"))]
         where = pf[0].split(":")[0] + ":" + pf[0].split(":")[-1] if pf else "?"
         return Violation(("C38", "peer-message-makes-transport-spin", where),
@@ -97,7 +102,12 @@ def parse_fields(payload):
 
 def mutate(sim, payload):
     fields = parse_fields(payload)
-    op = sim.choose(9)
+    op = sim.choose(10)
+    if op == 9:          # framing: the packet around the message (padding length byte, no payload at all)
+        kind = ("no-payload", "padding-255", "padding-covers-payload", "padding-equals-length")[sim.choose(4)]
+        if kind == "no-payload":
+            return b"", "frame-no-payload"
+        return FrameOp(payload, kind), "frame-" + kind
     rnd = sim.payload
     if not fields:
         op = 8
@@ -154,6 +164,15 @@ def mutate(sim, payload):
     return bytes(b), "random-bytes"
 
 
+class FrameOp(bytes):
+    """The payload unchanged, plus an order for the packet framing (carried out by frame_out)."""
+
+    def __new__(cls, payload, kind):
+        o = bytes.__new__(cls, payload)
+        o.kind = kind
+        return o
+
+
 BANNERS = (b"SSH-2.0\r\n", b"SSH-1.5-old\r\n", b"\xff\xfe\xfd garbage\r\n", b"SSH-2.0-x" + b"A" * 300 + b"\r\n",
            b"SSH-\r\n", b"\r\n" * 3 + b"SSH-2.0-ok\r\n", b"SSH-9.9-future\r\n", b"HTTP/1.1 400 Bad Request\r\n\r\n",
            b"SSH-2.0-x\xc3\x28\r\n", b"SSH2.0-nodash\r\n")
@@ -178,15 +197,35 @@ def scenario(sim):
     target = sim.choose(45)
     state = {"n": 0, "done": None}
 
+    sent = []
+    replay_case = sim.choose(8) == 0     # instead of mutating: an earlier message of the adversary is sent once more
+
     def mutate_out(pk, payload):
         k = state["n"]
         state["n"] += 1
+        if not banner_case and k == target and state["done"] is None and replay_case and sent:
+            old = sent[sim.choose(len(sent))]
+            state["done"] = (old[0], "replayed-before-type-%d" % payload[0])
+            sim.fault("mutated_replay-earlier-message")
+            return [old, payload]
+        sent.append(payload)
         if not banner_case and k == target and state["done"] is None:
             new, kind = mutate(sim, payload)
             state["done"] = (payload[0], kind)
             sim.fault("mutated_" + kind)
-            return [new] if new else []
+            if isinstance(new, FrameOp):
+                state["frame"] = new.kind
+                return [bytes(new)]
+            return [new]
         return [payload]
+
+    def frame_out(pk, payload, pkt):
+        kind = state.pop("frame", None)
+        if kind is None:
+            return pkt
+        plen = struct.unpack(">I", pkt[:4])[0]
+        pad = {"padding-255": 255, "padding-covers-payload": (plen - 1) & 0xff, "padding-equals-length": plen & 0xff}[kind]
+        return pkt[:4] + bytes([pad]) + pkt[5:]
 
     link = Link(sim, latency=((0.0, 0.01)[sim.choose(2)],) * 2)
     if banner_case:
@@ -203,8 +242,9 @@ def scenario(sim):
             return (data,)
         link.tap = tap
     plog = []
-    kw = {"server_pk" if adv_side == "s" else "client_pk": ssh.byzantine_packetizer(adv_side, plog, mutate_out=mutate_out)}
-    ukey = ssh.key("ed25519_2")
+    kw = {"server_pk" if adv_side == "s" else "client_pk": ssh.byzantine_packetizer(adv_side, plog, mutate_out=mutate_out,
+                                                                                     frame_out=frame_out)}
+    ukey = ssh.key(("ed25519_2", "rsa2", "ecdsa256_2")[sim.choose(3)])
     server = FullServer(sim, [ukey])
     kex = (None, None, "diffie-hellman-group1-sha1", "ecdh-sha2-nistp256", "diffie-hellman-group-exchange-sha256")[sim.choose(5)]
     p = ssh.Pair(sim, link=link, plog=plog, server=server, **kw)
